@@ -747,6 +747,11 @@ impl WriterSet {
             self.segment_size,
             self.compression,
         )?;
+        // Waiters of the old segment are already satisfied by the sync above. The new
+        // segment needs its own channel: carrying the old (larger) offset over would
+        // acknowledge the first appends to the new segment before they are synced.
+        let (sync_tx, _) = watch::channel(self.writer.write_offset());
+        self.sync_tx = sync_tx;
         let old_reader = mem::replace(
             &mut self.reader,
             BucketSegmentReader::open(
